@@ -184,6 +184,47 @@ def build_group(group, repo, log=None):
         return binp
 
 
+FUZZ_GROUPS = {"ring": ["C04", "C09"], "array": ["C14"], "locale": ["C19"]}   # clang-only, in-process resettable executors
+
+
+def build_fuzz(group, repo, log=None):
+    """libFuzzer variant of a group's executor (same exec sources, no rapidcheck driver)."""
+    g = GROUPS[group]
+    repo = os.path.abspath(repo)
+    bdir = os.path.join(VERIF, "build", repo_key(repo), group + "-fuzz")
+    os.makedirs(bdir, exist_ok=True)
+    with Lock(os.path.join(VERIF, "build", ".lock." + group + "-fuzz")):
+        srcs = ["props/%s/%s" % (group, f) for f in sorted(os.listdir(os.path.join(VERIF, "props", group)))
+                if f.endswith(".cpp") and f != "gen.cpp"] + ["engine/common/report.cpp", "engine/common/alloctrack.cpp", "engine/fuzz/fuzz_main.cpp"]
+        flags = COMMON + ["-fsanitize=fuzzer,address,undefined", "-fno-sanitize=nonnull-attribute", "-fno-sanitize-recover=undefined",
+                          "-fno-omit-frame-pointer", "-I", os.path.join(repo, "include"), "-I", VERIF]
+        inputs = tree_files(os.path.join(repo, "include")) + tree_files(os.path.join(repo, "src")) + [os.path.join(VERIF, s) for s in srcs] + \
+            tree_files(os.path.join(VERIF, "engine", "common")) + tree_files(os.path.join(VERIF, "props", group))
+        want = hashlib.sha256((file_hash(inputs) + " ".join(flags)).encode()).hexdigest()
+        binp = os.path.join(bdir, "fuzz")
+        stamp = os.path.join(bdir, "stamp")
+        if os.path.exists(stamp) and os.path.exists(binp) and open(stamp).read() == want:
+            return binp
+        if log:
+            log("building libFuzzer target for group %s from %s" % (group, repo))
+        jobs, objs = [], []
+        for s in srcs:
+            o = os.path.join(bdir, s.replace("/", "_") + ".o")
+            jobs.append((["clang++"] + flags + ["-c", os.path.join(VERIF, s), "-o", o], o)); objs.append(o)
+        for s in g["tulz"]:
+            o = os.path.join(bdir, "tulz_" + s.replace("/", "_") + ".o")
+            jobs.append((["clang++"] + flags + ["-c", os.path.join(repo, s), "-o", o], o)); objs.append(o)
+        errs = compile_many(jobs)
+        if errs:
+            raise RuntimeError("\n".join(errs))
+        r = sh(["clang++", "-fsanitize=fuzzer,address,undefined"] + objs + ["-lpthread", "-ldl", "-o", binp])
+        if r.returncode != 0:
+            raise RuntimeError("LINK FAILED (fuzz %s)\n%s" % (group, r.stdout[-4000:]))
+        with open(stamp, "w") as f:
+            f.write(want)
+        return binp
+
+
 if __name__ == "__main__":
     # python3 engine/build.py setup [repo]   -> build every group
     repo = sys.argv[2] if len(sys.argv) > 2 else os.environ.get("VERIF_REPO", "/repo")
